@@ -983,6 +983,17 @@ type RunSpec struct {
 	// (keys are rotated, users are deregistered while the handlers live on); DirSet marks an explicit empty directory
 	Dir    []DirEntry
 	DirSet bool
+	// Wire: the request as it arrives at the RA host - the forced command's argv and the environment sshd sets.
+	// The parameters handed to gensign.Run are then the ones csr.NewReqParam derives from it (as cmd/gensign does);
+	// Params holds what a correct reading of the same wire yields (the transaction id is taken over from the run).
+	Wire *WireSpec
+}
+
+type WireSpec struct {
+	Cmd     string // SSH_ORIGINAL_COMMAND
+	LogName string
+	Conn    string // SSH_CONNECTION
+	Argv    []string
 }
 
 type SessionSpec struct {
@@ -1029,6 +1040,8 @@ type Session struct {
 	KeysG    []uint64
 	BuildErr error
 	curDir   []DirEntry // the directory as last written
+	// per run: the parameters csr.NewReqParam derived from the wire (nil when the run was given parameters directly)
+	wireParams []*csr.ReqParam
 }
 
 type runCtx struct {
@@ -1267,7 +1280,31 @@ func Execute(pool *Pool, spec SessionSpec, rng *mrand.Rand) *Session {
 	}
 	defer closeLive()
 
-	for _, rs := range spec.Runs {
+	for ri, rs := range spec.Runs {
+		if rs.Wire != nil {
+			w := rs.Wire
+			env := map[string]string{"SSH_ORIGINAL_COMMAND": w.Cmd, "LOGNAME": w.LogName, "SSH_CONNECTION": w.Conn}
+			var p *csr.ReqParam
+			var perr error
+			if pn, msg := core.Guard(func() {
+				p, perr = csr.NewReqParam(func(k string) string { return env[k] }, func() []string { return w.Argv })
+			}); pn {
+				s.BuildErr = fmt.Errorf("csr.NewReqParam panicked: %s", msg)
+				return s
+			}
+			if perr != nil || p == nil {
+				s.BuildErr = fmt.Errorf("csr.NewReqParam refused a well-formed request (%q): %v", w.Cmd, perr)
+				return s
+			}
+			// what is expected keeps its own reading of the wire; only the server-chosen transaction id is taken over
+			spec2 := *rs.Params
+			spec2.TransID = p.TransID
+			s.Spec.Runs[ri].Params = &spec2
+			s.wireParams = append(s.wireParams, p)
+			rs.Params = p
+		} else {
+			s.wireParams = append(s.wireParams, nil)
+		}
 		rec := &Recorder{}
 		rc := &runCtx{sess: s, rec: rec, agent: s.Agent, params: rs.Params}
 		if !(spec.Reuse && live != nil && !s.Agent.Closed() && sameRegularSpecs(live.specs, rs.Handlers)) {
@@ -1513,7 +1550,7 @@ func (s *Session) Human() interface{} {
 				"ClientIP": p.ClientIP, "TransID": p.TransID, "Attrs": p.Attrs}
 		}
 		runs = append(runs, map[string]interface{}{
-			"params": params, "handlers": hs, "agent_behaviour": BehNames[rs.Beh.Kind], "replay_index": rs.Beh.Index,
+			"params": params, "wire": rs.Wire, "handlers": hs, "agent_behaviour": BehNames[rs.Beh.Kind], "replay_index": rs.Beh.Index,
 			"agent_faults": rs.Faults, "signer_script": rs.Signer,
 			"key_dir_replaced_before_run": dirHuman(rs.Dir, rs.Dir != nil || rs.DirSet),
 			"result":                      res.KindName, "error": res.Err, "events": evs, "signer_returned": res.SignerOut, "agent_after": res.Store,
